@@ -698,7 +698,10 @@ func checkParsePerScheme(r *Run, rc *RuleCtx, parse *ssa.Function, uc *uriConsts
 					st |= sawParseProto
 				}
 				if isPkgFuncCall(cc, "net", "SplitHostPort") {
-					arg := deref(cc.Call.Args[0])
+					arg := deref(c.Resolve(deref(cc.Call.Args[0])))
+					if os.Getenv("STUNLINT_DEBUGTAB") != "" {
+						fmt.Println("SPLIT", exprDepth(cc.Call.Args[0], 0), "->", exprDepth(arg, 0), c.Witness(parse, cc))
+					}
 					if b, ok := arg.(*ssa.BinOp); ok && b.Op == token.ADD {
 						y := c.Resolve(b.Y)
 						if s, ok := constString(y); ok {
@@ -736,6 +739,8 @@ func checkParsePerScheme(r *Run, rc *RuleCtx, parse *ssa.Function, uc *uriConsts
 			} else {
 				v := c.Resolve(protoStores.stores[i-1].Val)
 				if cv, ok := constInt(v); ok {
+					finals[fmt.Sprintf("const %d", cv)] = true
+				} else if cv, ok := constOfTableLoad(p, v); ok {
 					finals[fmt.Sprintf("const %d", cv)] = true
 				} else if e, ok := deref(v).(*ssa.Extract); ok {
 					if cc, ok := e.Tuple.(*ssa.Call); ok && parseProto != nil && callsFn(cc, parseProto) {
@@ -818,6 +823,18 @@ func checkParseProto(r *Run, rc *RuleCtx, uc *uriConsts) {
 		if c, ok := in.(*ssa.Call); ok && isMethodCall(c, "net/url", "Values", "Get") {
 			if s, ok := constString(c.Call.Args[1]); ok && s == "transport" {
 				gotKey = true
+			}
+		}
+		// the same read spelt out: qArgs["transport"] and its first element
+		if lk, ok := in.(*ssa.Lookup); ok && !lk.CommaOk {
+			if ks, isS := constString(lk.Index); isS && ks == "transport" {
+				for _, u := range *lk.Referrers() {
+					if ia, isIA := u.(*ssa.IndexAddr); isIA {
+						if z, isZ := constInt(ia.Index); isZ && z == 0 {
+							gotKey = true
+						}
+					}
+				}
 			}
 		}
 		iff, ok := in.(*ssa.If)
@@ -1190,4 +1207,52 @@ func isStrconvResult(v ssa.Value) bool {
 		return false
 	}
 	return isPkgFuncCall(c, "strconv", "Atoi") || isPkgFuncCall(c, "strconv", "ParseInt") || isPkgFuncCall(c, "strconv", "ParseUint")
+}
+
+// constOfTableLoad: v reads a constant-index element of a read-only package-level array (or a constant key
+// of a read-only package-level map): the integer stored there.
+func constOfTableLoad(p *Prog, v ssa.Value) (int64, bool) {
+	v = stripConvs(v)
+	tabs := p.readOnlyGlobalTables()
+	entry := func(t *globalTable, key ssa.Value) (int64, bool) {
+		kc, ok := key.(*ssa.Const)
+		if !ok || kc.Value == nil {
+			return 0, false
+		}
+		e, have := t.entries[kc.Value.ExactString()]
+		if !have {
+			e = t.zero
+		}
+		if e == nil || e.Kind() != constant.Int {
+			return 0, false
+		}
+		iv, exact := constant.Int64Val(e)
+		return iv, exact
+	}
+	switch x := v.(type) {
+	case *ssa.UnOp:
+		if x.Op != token.MUL {
+			return 0, false
+		}
+		ia, ok := x.X.(*ssa.IndexAddr)
+		if !ok {
+			return 0, false
+		}
+		g, isG := ia.X.(*ssa.Global)
+		if !isG || tabs[g] == nil || tabs[g].length < 0 {
+			return 0, false
+		}
+		if idx, isC := constInt(ia.Index); !isC || idx < 0 || idx >= tabs[g].length {
+			return 0, false
+		}
+		return entry(tabs[g], ia.Index)
+	case *ssa.Lookup:
+		if x.CommaOk {
+			return 0, false
+		}
+		if t := lookupTable(tabs, x.X); t != nil {
+			return entry(t, x.Index)
+		}
+	}
+	return 0, false
 }
